@@ -146,7 +146,8 @@ def run_wiring(dd, case, acc, workdir):
     os.makedirs(workdir, exist_ok=True)
     opts = case['opts']
     infile = os.path.join(workdir, 'input' + case['ext'])
-    outfile = os.path.join(workdir, 'output' + case['ext'])
+    # (the output file is named differently: the candidates get the INPUT file's extension)
+    outfile = os.path.join(workdir, 'output' + (case['ext'] if len(repr(case)) % 2 else '.min'))
     with open(infile, 'w') as f:
         f.write(file_text(case['golden'], case['golden_cc'], 'golden'))
     sp = spec.write_spec(DIRECTIVE_SPEC, os.path.join(workdir, 'c09.spec'))
